@@ -121,7 +121,7 @@ class C17(Prop):
     REQUIRED_CLASSES = ["equal_pair", "nested_difference", "escaped_key_in_patch", "array_shortened>=2", "independent", "ownership_flags_variant", "path_length_sweep", "deep_documents", "second_generation_after_edits"]
 
     def budget(self, tier):
-        return {"workers": 14, "examples": 900 if tier == "quick" else 20000}
+        return {"workers": 14, "examples": 1300 if tier == "quick" else 20000}
 
     def strategy(self, tier):
         main = st.fixed_dictionaries({"from": utils_documents(max_leaves=10, min_leaves=2), "other": utils_documents(max_leaves=8),
